@@ -10,7 +10,7 @@ IDS=${@:-$(ls seeded)}
 [ -z "$(git -C /repo status --short)" ] || { echo "/repo is not clean"; exit 2; }
 MISS=0
 for id in $IDS; do
-  P=${id%%-*}
+  P=${id%%-*}; SC=$(jq -r ".sweep_check // empty" seeded/$id/meta.json 2>/dev/null); [ -n "$SC" ] && P=$SC   # (a change that another property's check reports)
   grep -q superseded_by_fix seeded/$id/meta.json 2>/dev/null && { echo "$id: superseded by a fix (skipped)"; continue; }
   git -C /repo apply ${VERIF_SNAP:-/verif}/seeded/$id/patch.diff || { echo "$id: patch does not apply"; MISS=1; continue; }
   timeout 3600 ./check $P --tier quick > .work/seedsweep.$id.log 2>&1; E=$?
